@@ -102,6 +102,47 @@ CHECKS["C07"] = ("proof",
     "Trusted: hashes uninterpreted, struct/BytesIO models, ArithUint256.__truediv__ (float division of a 256-bit int) is an unknown "
     "quotient in the link-only proofs. Not decided: retarget arithmetic for all values (binary64 steps), PoW values, forks.",
     "symbolic execution of the real AST on arbitrary header bytes, VCs by z3/cvc5; bounded differential vs integer reference", "3 C07")
+CHECKS["C03"] = ("proof",
+    "Deductive on the real Transaction.create, Ledger.get_spendable_utxos / get_effective_amount_estimators / release_tx and the real "
+    "CoinSelector with 0..2 spendable outputs of symbolic amount and confirmation state, a symbolic payment, optional pre-chosen input and "
+    "a symbolic fee rate, for every in-python strategy: requested output unchanged; inputs are distinct offered outputs, all reserved by "
+    "this build; inputs = outputs + fee with size_fee <= fee <= size_fee + cost of change + DUST; at most one change output above dust to "
+    "the change address; InsufficientFundsError only when positive-value outputs cannot cover; nothing reserved after failure; database "
+    "touched only under the reservation lock. Selector soundness/completeness per strategy. Bounded (labelled): real Ledger + sqlite "
+    "Database + Account for all 7 strategies incl. the sqlite chooser (420 builds, a 1281-build fee-boundary sweep, 126 concurrent cases).",
+    "Account/database behaviour is a call-site contract (get_utxos returns unreserved outputs; reserve/release flip the flag), "
+    "cross-checked on real sqlite by the bounded cases. Symbolic part limited to 2 spendable outputs and one requested output; the sqlite "
+    "chooser is bounded only; signing is off (C04).",
+    "symbolic execution of the real AST (asyncio lock/scheduler model), VCs by z3/cvc5; bounded run-time contracts on the real ledger", "3 C03")
+CHECKS["C14"] = ("proof",
+    "Rely/guarantee over the reservation flag: the deductive C03 funding proofs (registered under C14) establish for the real "
+    "get_spendable_utxos / Transaction.create / release_tx that every read and reserve of coin selection happens while the asyncio lock is "
+    "held, the lock is released on all paths, a build reserves exactly the offered (unreserved) outputs it spends and nothing stays "
+    "reserved after a failure; with mutual exclusion of the lock these imply disjoint selections for every interleaving. Bounded "
+    "(labelled): 2..8 concurrent builds on the real Ledger + sqlite Database for all 7 strategies, confirmed/mixed/unconfirmed UTXO sets, "
+    "failure at signing, release (126 cases).",
+    "Interleavings are covered by the lock argument, not enumerated; asyncio.Lock mutual exclusion and the atomicity of one SQL "
+    "transaction are trusted; the sqlite chooser is bounded only; cancellation and crashes are outside.",
+    "symbolic execution of the real AST with an asyncio lock model (rely/guarantee per build), VCs by z3/cvc5; bounded concurrent runs", "3 C14")
+CHECKS["C02"] = ("proof",
+    "Deductive on the real StreamDescriptor.create_stream / file_reader / encrypt_blob_bytes / decrypt_blob_bytes / "
+    "AbstractBlob.create_from_unencrypted / calculate_stream_hash / calculate_sd_hash / _from_stream_descriptor_blob / "
+    "sanitize_file_name with symbolic file content, key, IVs and names, the number of chunks unrolled (1..3 chunks: every file size up "
+    "to 3*(2 MiB-1)): decrypting the published blobs in order restores the file; every blob at most 2 MiB; terminator present; stream hash "
+    "and sd hash are the stated SHA-384 commitments; a loaded descriptor is consistent; every single-field tampering is refused unless an "
+    "explicit SHA-384 collision exists; sanitised names are clean. Bounded (labelled): 4-5 chunk files, arbitrary bytes as a descriptor.",
+    "AES-CBC/PKCS7 are uninterpreted with inverse and length laws, json by a canonical-text inverse law, the file system as a path->bytes "
+    "map, SHA-384 uninterpreted (tamper refusal is conditional on collision resistance). Chunk count <= 3 and blob entries <= 3 symbolically.",
+    "symbolic execution of the real AST with uninterpreted crypto and an OS model, VCs by z3/cvc5; bounded publish/load on a scratch dir", "3 C02")
+CHECKS["C16"] = ("proof",
+    "Deductive on the real Signable envelope (to_bytes/from_bytes/is_signed/clear_signature), Claim.from_bytes, Support, Purchase, the "
+    "byte/integer accessors of attrs.py (ClaimReference, Source hashes, Fee units, Location) and URL.parse / __str__ / parts over the "
+    "pattern built by the running _create_url_regex(): every URL generated from the grammar (48 shapes, arbitrary names/ids/sequence "
+    "numbers) parses to its parts and prints back; every string outside the grammar raises ValueError. Bounded (labelled): the four claim "
+    "types through update()/setters with real protobuf, all language tags, legacy encodings. Known findings F11, F16.2, F16.3, F16.4.",
+    "protobuf wire format is an uninterpreted function with inverse (fakes via model_for); regex capture semantics modelled with "
+    "solver-checked disjointness/unique-split obligations; attrs plumbing beyond the listed accessors is bounded only.",
+    "symbolic execution of the real AST, sre-parsed real URL pattern to z3 regex, VCs by z3/cvc5; bounded real-protobuf round trips", "3 C16")
 CHECKS["C13"] = ("proof",
     "Deductive on the real Account/Wallet/WalletStorage code with fully symbolic strings: encrypt then decrypt with the same password "
     "restores seed/keys; a wrong password or any tampered stored state that does not decrypt leaves the account unchanged; every "
